@@ -83,7 +83,7 @@ theorem addCell_cells (k : Kernel) (hfs : List Nat) (chk : Bool) :
   unfold addCell; split <;> simp
 
 /-- the find-or-create loop of `add_face(vertices)` keeps faces and cells and yields one halfedge per pair -/
-theorem foldl_pair_inv {β} (step : Kernel × List Nat → β → Kernel × List Nat)
+private theorem foldl_pair_inv {β} (step : Kernel × List Nat → β → Kernel × List Nat)
     (h : ∀ st x, (step st x).1.faces = st.1.faces ∧ (step st x).1.cells = st.1.cells ∧ (step st x).2.length = st.2.length + 1)
     (xs : List β) (st : Kernel × List Nat) :
     (xs.foldl step st).1.faces = st.1.faces ∧ (xs.foldl step st).1.cells = st.1.cells ∧
@@ -280,16 +280,24 @@ theorem hexAddCell_accept (k : Kernel) (hfs : List Nat) (chk : Bool) (c : Nat)
           split at h
           · rename_i hco
             simp only [hco, if_true]
-            obtain ⟨a, b, d⟩ := key _ _ h
-            exact ⟨a, b, hfs, d, hl, hv, Or.inr (Or.inl ⟨hct, rfl, by first | rfl | trivial | exact hco⟩)⟩
+            split at h
+            · rename_i hop
+              simp only [hop, if_true]
+              obtain ⟨a, b, d⟩ := key _ _ h
+              exact ⟨a, b, hfs, d, hl, hv, Or.inr (Or.inl ⟨hct, rfl, by first | rfl | trivial | exact hco⟩)⟩
+            · simp at h
           · rename_i hco
             simp only [hco, if_false, Bool.false_eq_true]
             split at h
             · simp at h
             · rename_i ord hre
               simp only [hre]
-              obtain ⟨a, b, d⟩ := key _ _ h
-              exact ⟨a, b, ord, d, hexReorder_length k hfs ord hre, hv, Or.inr (Or.inr ⟨hct, by first | (simp at hco; simp [hco]; done) | simp | trivial, by first | rfl | exact hre⟩)⟩
+              split at h
+              · rename_i hop
+                simp only [hop, if_true]
+                obtain ⟨a, b, d⟩ := key _ _ h
+                exact ⟨a, b, ord, d, hexReorder_length k hfs ord hre, hv, Or.inr (Or.inr ⟨hct, by first | (simp at hco; simp [hco]; done) | simp | trivial, by first | rfl | exact hre⟩)⟩
+              · simp at h
 
 /-- 7b999c9: an accepted call was given six quads that span exactly eight distinct vertices -/
 theorem hexAddCell_accept_span (k : Kernel) (hfs : List Nat) (chk : Bool) (c : Nat)
@@ -302,6 +310,62 @@ theorem hexAddCell_accept_span (k : Kernel) (hfs : List Nat) (chk : Bool) (c : N
     · split at h
       · simp at h
       · rename_i hspan; simpa using hspan
+
+/-- 7800c85: on the checked path the list handed to the base class has vertex-disjoint opposite pairs -/
+theorem hexAddCell_accept_opp (k : Kernel) (hfs : List Nat) (c : Nat)
+    (h : (k.hexAddCell hfs true).2 = some c) :
+    (k.hexCheckOrdering hfs = true ∧ k.oppPairsDisjoint hfs = true) ∨
+    (k.hexCheckOrdering hfs = false ∧ ∃ ord, k.hexReorder hfs = some ord ∧ k.oppPairsDisjoint ord = true) := by
+  unfold hexAddCell at h
+  split at h
+  · simp at h
+  · split at h
+    · simp at h
+    · split at h
+      · simp at h
+      · simp only [Bool.not_true, Bool.false_eq_true, if_false] at h
+        split at h
+        · rename_i hco
+          split at h
+          · rename_i hop; exact Or.inl ⟨hco, hop⟩
+          · simp at h
+        · rename_i hco
+          split at h
+          · simp at h
+          · rename_i ord hre
+            split at h
+            · rename_i hop; exact Or.inr ⟨by simpa using hco, ord, hre, hop⟩
+            · simp at h
+
+/-- an accepted call IS a base-class call on the stored list `l`: the given list (unchecked, or accepted by
+    `check_halfface_ordering`) or its re-ordering; on the checked path `l` passed the guard of 7800c85 -/
+theorem hexAddCell_eq_addCell (k : Kernel) (hfs : List Nat) (chk : Bool) (c : Nat)
+    (h : (k.hexAddCell hfs chk).2 = some c) :
+    ∃ l, k.hexAddCell hfs chk = k.addCell l chk ∧
+      ((l = hfs ∧ (chk = true → k.hexCheckOrdering hfs = true)) ∨
+       (chk = true ∧ k.hexCheckOrdering hfs = false ∧ k.hexReorder hfs = some l)) ∧
+      (chk = true → k.oppPairsDisjoint l = true) := by
+  obtain ⟨_, _, _, _, _, hv, _⟩ := hexAddCell_accept k hfs chk c h
+  have hsp : (k.spanVertCount hfs != 8) = false := by rw [hexAddCell_accept_span k hfs chk c h]; rfl
+  have hlen : (hfs.length != 6) = false := by
+    unfold hexAddCell at h; split at h
+    · simp at h
+    · rename_i h6; simpa using h6
+  have hval : hfs.any (fun hf => (k.faceAt (eOf hf)).length != 4) = false := by
+    rw [List.any_eq_false]; intro x hx; simp [hv x hx]
+  cases chk with
+  | false =>
+    refine ⟨hfs, ?_, Or.inl ⟨rfl, fun e => by cases e⟩, fun e => by cases e⟩
+    unfold hexAddCell
+    simp only [hlen, hval, hsp, Bool.false_eq_true, if_false, Bool.not_false, if_true]
+  | true =>
+    rcases hexAddCell_accept_opp k hfs c h with ⟨hco, hop⟩ | ⟨hco, ord, hre, hop⟩
+    · refine ⟨hfs, ?_, Or.inl ⟨rfl, fun _ => hco⟩, fun _ => hop⟩
+      unfold hexAddCell
+      simp only [hlen, hval, hsp, Bool.false_eq_true, if_false, Bool.not_true, hco, hop, if_true]
+    · refine ⟨ord, ?_, Or.inr ⟨rfl, hco, hre⟩, fun _ => hop⟩
+      unfold hexAddCell
+      simp only [hlen, hval, hsp, Bool.false_eq_true, if_false, Bool.not_true, hco, hre, hop, if_true]
 
 theorem hexAddCell_len (k : Kernel) (hfs : List Nat) (chk : Bool) (h : HexLen k) : HexLen (k.hexAddCell hfs chk).1 := by
   cases hr : (k.hexAddCell hfs chk).2 with
